@@ -1004,6 +1004,16 @@ def native_method(I, recv, name, args, kwargs, node):
             recv.arr = z3.Store(recv.arr, recv.n, to_z3(v) if not is_z3(v) else v)
             recv.n = recv.n + 1
             return None
+        if name == "extend" and isinstance(args[0], SymList):
+            # in-place concatenation with a list of symbolic length: existing elements kept, the new ones follow
+            xs = args[0]
+            new = z3.Array(I.fresh_name("ext"), z3.IntSort(), recv.arr.sort().range())
+            k = z3.Int(I.fresh_name("k"))
+            I.assume(z3.ForAll([k], z3.Implies(z3.And(0 <= k, k < recv.n), z3.Select(new, k) == z3.Select(recv.arr, k))))
+            I.assume(z3.ForAll([k], z3.Implies(z3.And(recv.n <= k, k < recv.n + xs.n), z3.Select(new, k) == z3.Select(xs.arr, k - recv.n))))
+            recv.arr = new
+            recv.n = recv.n + xs.n
+            return None
         if name == "__getitem__":
             return I.getitem(recv, args[0], node)
     raise OutsideSubset("method %s of %s" % (name, type(recv).__name__), node)
